@@ -147,63 +147,44 @@ func checkOptionConstructors(r *Run, prog *Program, pfx string) {
 		}
 		cl := ctor.AnonFuncs[0]
 		var probs []string
-		nst := 0
-		for _, b := range cl.Blocks {
-			for _, ins := range b.Instrs {
-				switch x := ins.(type) {
-				case *ssa.If:
-					probs = append(probs, "the option is applied conditionally")
-				case *ssa.Store:
-					fa, ok := x.Addr.(*ssa.FieldAddr)
-					if !ok || fa.X != ssa.Value(cl.Params[0]) {
-						if _, isAlloc := x.Addr.(*ssa.Alloc); isAlloc {
-							continue
-						}
-						if ia, isIA := x.Addr.(*ssa.IndexAddr); isIA {
-							if _, isAlloc := ia.X.(*ssa.Alloc); isAlloc {
-								continue
-							}
-						}
-						if fa2, ok2 := x.Addr.(*ssa.FieldAddr); ok2 {
-							if _, isAlloc := fa2.X.(*ssa.Alloc); isAlloc {
-								continue
-							}
-						}
-						probs = append(probs, "stores somewhere other than a field of its *options argument")
-						continue
-					}
-					nst++
-					name := fieldName(fa.X.Type(), fa.Field)
-					if name != row.field {
-						probs = append(probs, "writes option field "+name+" (its own field is "+row.field+")")
-					}
-					// the value: the captured parameter (or its address), or for the bindings an append to the same field
-					v := x.Val
-					okV := isCaptured(v)
-					if !okV && row.ctor == "WithLocalVariable" {
-						if c, isC := v.(*ssa.Call); isC {
-							if bi, isB := c.Call.Value.(*ssa.Builtin); isB && bi.Name() == "append" {
-								okV = true
-							}
-						}
-					}
-					if !okV {
-						probs = append(probs, "stores "+describeRoot(prog, v)+", not its own parameter unmodified")
-					}
-				case *ssa.UnOp:
-					if x.Op == token.MUL {
-						if fa, ok := x.X.(*ssa.FieldAddr); ok && fa.X == ssa.Value(cl.Params[0]) {
-							name := fieldName(fa.X.Type(), fa.Field)
-							if name != row.field || row.ctor != "WithLocalVariable" {
-								probs = append(probs, "reads option field "+name+": options must not depend on each other or on earlier settings (last one wins)")
-							}
-						}
+		paths := optionClosureStores(prog, cl)
+		if len(paths) != 1 {
+			probs = append(probs, "the option is applied conditionally")
+		}
+		for _, op := range paths {
+			nst := 0
+			for _, st := range op.stores {
+				if st.field == "" {
+					probs = append(probs, "stores somewhere other than a field of its *options argument")
+					continue
+				}
+				nst++
+				if st.field != row.field {
+					probs = append(probs, "writes option field "+st.field+" (its own field is "+row.field+")")
+				}
+				// the value: the captured parameter (or its address), or for the bindings an append to the same field
+				v := st.val
+				okV := v.K == sFree || (v.K == sLoad && v.A.K == sFree) || (v.K == sFresh && false)
+				if !okV && v.K == sFree {
+					okV = true
+				}
+				if !okV && row.ctor == "WithLocalVariable" {
+					if base, parts := appendChain(op.sm.St, v); len(parts) == 1 && base != nil && base.K == sLoad && base.A.Key() == st.addr.Key() {
+						okV = true
 					}
 				}
+				if !okV {
+					probs = append(probs, "stores "+shortKey(v)+", not its own parameter unmodified")
+				}
 			}
-		}
-		if nst != 1 {
-			probs = append(probs, fmt.Sprintf("%d stores into the options (expected exactly one)", nst))
+			for _, rd := range op.reads {
+				if rd != row.field || row.ctor != "WithLocalVariable" {
+					probs = append(probs, "reads option field "+rd+": options must not depend on each other or on earlier settings (last one wins)")
+				}
+			}
+			if nst != 1 {
+				probs = append(probs, fmt.Sprintf("%d stores into the options (expected exactly one)", nst))
+			}
 		}
 		r.Check(pfx+".constructor", row.ctor, prog.pos(cl.Pos()), len(probs) == 0, strings.Join(uniq(probs), "; "))
 	}
@@ -262,45 +243,91 @@ func checkGetOpts(r *Run, prog *Program, a *Anchors, pfx string) {
 		}
 	}
 	r.Check(pfx+".defaults", "getDefaultOptions", prog.pos(gdo.Pos()), ok, why)
-	// getOpts: defaults, then every non-nil option in slice order, applied to the same struct
+	// getOpts: defaults, then every non-nil option in slice order, applied to the same struct — decided on the paths of
+	// getOpts (helpers it is split into interpreted in place), three loop visits
 	fn := a.GetOpts
-	okLoop, okBase, okCall := false, false, false
-	var opts *ssa.Alloc
-	for _, b := range fn.Blocks {
-		for _, ins := range b.Instrs {
-			switch x := ins.(type) {
-			case *ssa.Store:
-				if al, isAl := x.Addr.(*ssa.Alloc); isAl {
-					if c, isC := x.Val.(*ssa.Call); isC && c.Call.StaticCallee() == gdo {
-						okBase = true
-						opts = al
-					}
+	pOpt := paramSym(fn.Params[0])
+	psF := NewPathSim(prog)
+	psF.maxVisits = 3
+	psF.Inline = func(c *ssa.Function) bool { return prog.InModule(c) && c != gdo && !recursive(prog, c) }
+	okLoop, okBase, okCall, okRet := true, true, true, true
+	maxCalls, nPaths := 0, 0
+	why2 := ""
+	for _, sm := range psF.Run(fn) {
+		if sm.Ret == nil || len(sm.Results) != 1 {
+			okRet = false
+			continue
+		}
+		nPaths++
+		var idxs []int64
+		var target *Sym
+		for _, ev := range sm.Events() {
+			if ev.Instr == nil || ev.Inlined || ev.FnSym == nil {
+				continue
+			}
+			if _, isB := ev.Instr.Common().Value.(*ssa.Builtin); isB {
+				continue
+			}
+			f := ev.FnSym
+			if !(f.K == sLoad && f.A.K == sIndexAddr && f.A.A.Key() == pOpt.Key()) {
+				okCall, why2 = false, "a function value other than an element of the option list is called: "+shortKey(f)
+				continue
+			}
+			b, o := linear(f.A.B)
+			if b != "" {
+				okLoop, why2 = false, "an option is taken at a position that is not a constant offset on the path: "+shortKey(f.A.B)
+				continue
+			}
+			if len(idxs) > 0 && o <= idxs[len(idxs)-1] {
+				okLoop, why2 = false, "the options are not applied in slice order"
+			}
+			// a skipped position must be a nil option
+			prev := int64(-1)
+			if len(idxs) > 0 {
+				prev = idxs[len(idxs)-1]
+			}
+			for j := prev + 1; j < o; j++ {
+				el := &Sym{K: sLoad, A: &Sym{K: sIndexAddr, A: pOpt, B: &Sym{K: sConst, C: constant.MakeInt64(j)}}}
+				if eq, known := evalEq(sm.St, el, nilSym()); !known || !eq {
+					okLoop, why2 = false, fmt.Sprintf("option %d is skipped although it is not known to be nil", j)
 				}
-			case *ssa.Call:
-				if x.Call.StaticCallee() == nil && !x.Call.IsInvoke() {
-					if _, isB := x.Call.Value.(*ssa.Builtin); !isB && len(x.Call.Args) == 1 && opts != nil && x.Call.Args[0] == ssa.Value(opts) {
-						okCall = true
-					}
+			}
+			idxs = append(idxs, o)
+			if len(ev.Args) != 1 || ev.Args[0].K != sFresh {
+				okCall, why2 = false, "an option is not applied to the local options struct: "+shortKey(ev.Args[0])
+				continue
+			}
+			if target == nil {
+				target = ev.Args[0]
+				// at the first application the struct holds the defaults
+				d := ev.Deref[0]
+				if d == nil {
+					okBase, why2 = false, "the struct the options are applied to is not tracked"
+				} else if cf, _ := calleeOfSym(d); cf != gdo {
+					okBase, why2 = false, "the struct the options are applied to is not initialised with the defaults: "+shortKey(d)
 				}
-			case *ssa.Phi:
-				// ascending range index: phi(-1, phi+1, …) / phi(0, phi+1)
-				if start, asc := ascendingInduction(x); asc && (start == -1 || start == 0) {
-					okLoop = true
-				}
+			} else if target.Key() != ev.Args[0].Key() {
+				okCall, why2 = false, "options are applied to different structs"
+			}
+		}
+		if len(idxs) > maxCalls {
+			maxCalls = len(idxs)
+		}
+		res := sm.Results[0]
+		switch {
+		case target != nil:
+			if !(res.K == sLoad && res.A.Key() == target.Key()) {
+				okRet, why2 = false, "the result is not the struct the options were applied to: "+shortKey(res)
+			}
+		default:
+			if cf, _ := calleeOfSym(res); cf != gdo {
+				okBase, why2 = false, "without options the result is not the defaults: "+shortKey(res)
 			}
 		}
 	}
-	r.Check(pfx+".fold-order", "getOpts", prog.pos(fn.Pos()), okLoop && okBase && okCall, fmt.Sprintf("getOpts must apply the non-nil options in slice order to one struct initialised with the defaults (ascending loop=%v, defaults=%v, applied to that struct=%v)", okLoop, okBase, okCall))
-	// the result is that struct
-	ps2 := NewPathSim(prog)
-	ps2.Havoc = true
-	okRet := true
-	for _, sm := range ps2.Run(fn) {
-		if sm.Ret == nil || len(sm.Results) != 1 {
-			okRet = false
-		}
-	}
-	r.Check(pfx+".fold-order", "getOpts:returns", prog.pos(fn.Pos()), okRet, "getOpts has an unexpected return shape")
+	r.Check(pfx+".fold-order", "getOpts", prog.pos(fn.Pos()), okLoop && okBase && okCall && maxCalls >= 2 && nPaths > 0,
+		fmt.Sprintf("getOpts must apply the non-nil options in slice order to one struct initialised with the defaults (in order=%v, defaults=%v, applied to that struct=%v, options applied on the longest explored path=%d) %s", okLoop, okBase, okCall, maxCalls, why2))
+	r.Check(pfx+".fold-order", "getOpts:returns", prog.pos(fn.Pos()), okRet, "getOpts has an unexpected return shape "+why2)
 }
 
 // ascendingInduction: phi(const c, step, step…) where every step is phi+1 (directly or via a value computed as phi+1).
@@ -333,6 +360,7 @@ func checkEvaluatorPipeline(r *Run, prog *Program, a *Anchors, pfx string) {
 	fas := prog.FieldAccesses(prog.ModuleFuncs())
 	// creation: Evaluator.<evalField> = getOpts(opts...).<field>, written only in CreateEvaluator
 	psC := NewPathSim(prog)
+	psC.Inline = func(c *ssa.Function) bool { return bexprHelper(prog, a, c) && !recursive(prog, c) } // constructor helpers
 	var created *Sym
 	var optsSym *Sym
 	var pOpts = paramSym(a.CreateEv.Params[1])
@@ -383,7 +411,7 @@ func checkEvaluatorPipeline(r *Run, prog *Program, a *Anchors, pfx string) {
 		for _, fa := range fas {
 			if fa.Struct.Obj() == evT && fa.Field == row.evalField && fa.Kind == "write" {
 				n++
-				r.Check(pfx+".pipeline", "writer:Evaluator."+row.evalField+":"+fa.Fn.Name(), prog.pos(fa.Instr.Pos()), fa.Fn == a.CreateEv, "Evaluator."+row.evalField+" is written outside CreateEvaluator: creation-time options would no longer govern every Evaluate")
+				r.Check(pfx+".pipeline", "writer:Evaluator."+row.evalField+":"+fa.Fn.Name(), prog.pos(fa.Instr.Pos()), prog.ctorHelper(a, fa.Fn, 0), "Evaluator."+row.evalField+" is written outside CreateEvaluator: creation-time options would no longer govern every Evaluate")
 			}
 		}
 		r.Check(pfx+".pipeline", "writers:Evaluator."+row.evalField, prog.pos(a.CreateEv.Pos()), n == 1, fmt.Sprintf("%d writers of Evaluator.%s", n, row.evalField))
